@@ -3,6 +3,7 @@
 A Rope is a list of parts:
     ('lit', [b0, b1, ...])           literal byte *values* (possibly symbolic ints)
     ('src', name, start, stop)       the bytes name[start:stop] of an abstract source of symbolic length
+    ('rep', value, count)            ``count`` copies of one byte value (count may be symbolic, > 0)
 
 Contract encoded: ``len``, ``+`` (with bytes / bytearray / Rope on either side), slicing with Python's clamping
 rules, truthiness.  Content of 'src' parts is never inspected: what is proved about them is *which* bytes of the
@@ -18,6 +19,8 @@ class RopeError(Exception):
 def _coerce(o):
     if isinstance(o, Rope):
         return o
+    if isinstance(o, (BytesRope, BytearrayRope)):
+        return o._rope
     if isinstance(o, (bytes, bytearray)):
         if len(o) == 0:
             return Rope([])
@@ -28,6 +31,8 @@ def _coerce(o):
 def _plen(p):
     if p[0] == 'lit':
         return len(p[1])
+    if p[0] == 'rep':
+        return p[2]
     return p[3] - p[2]
 
 
@@ -69,6 +74,11 @@ class Rope:
             return NotImplemented
 
     def __mul__(self, k):
+        # k copies of a single literal byte keep the count symbolic (no enumeration of k)
+        if len(self.parts) == 1 and self.parts[0][0] == 'lit' and len(self.parts[0][1]) == 1:
+            if k <= 0:
+                return Rope([])
+            return Rope([('rep', self.parts[0][1][0], k)])
         out = []
         for _ in range(k):
             out = out + self.parts
@@ -103,18 +113,24 @@ class Rope:
             if lo < hi:
                 if p[0] == 'lit':
                     out.append(('lit', p[1][lo - pos:hi - pos]))
+                elif p[0] == 'rep':
+                    out.append(('rep', p[1], hi - lo))
                 else:
                     out.append(('src', p[1], p[2] + (lo - pos), p[2] + (hi - pos)))
             pos = pos + ln
         return Rope(out)
 
     def flat(self):
-        """[('b', value)...] for literal bytes, ('src', name, a, b) for source ranges; empty parts dropped."""
+        """[('b', value)...] for literal bytes, ('rep', value, count) for repeated bytes, ('src', name, a, b) for
+        source ranges; empty parts dropped."""
         out = []
         for p in self.parts:
             if p[0] == 'lit':
                 for v in p[1]:
                     out.append(('b', v))
+            elif p[0] == 'rep':
+                if p[2] > 0:
+                    out.append(p)
             else:
                 if p[3] > p[2]:
                     out.append(p)
@@ -126,6 +142,8 @@ class Rope:
         for p in self.parts:
             if p[0] == 'lit':
                 out += bytes(int(v) for v in p[1])
+            elif p[0] == 'rep':
+                out += bytes([int(p[1])]) * int(p[2])
             else:
                 out += sources[p[1]][p[2]:p[3]]
         return bytes(out)
@@ -158,3 +176,54 @@ class BytesStructShim(StructShim):
 
     def pack(self, *v):
         return struct.pack(self.format, *v)
+
+
+class BytesRope(bytes):
+    """A genuine ``bytes`` instance (so ``isinstance(x, bytes)`` holds) whose length/content are those of a Rope."""
+
+    def __new__(cls, rope):
+        o = bytes.__new__(cls, b'')
+        o._rope = rope
+        return o
+
+    def __len__(self):
+        return len(self._rope)
+
+    def __bool__(self):
+        return bool(self._rope)
+
+    def __add__(self, o):
+        return self._rope + o
+
+    def __radd__(self, o):
+        return o + self._rope
+
+    def __getitem__(self, sl):
+        return self._rope[sl]
+
+
+class BytearrayRope(bytearray):
+    """Same for ``bytearray``."""
+
+    def __new__(cls, rope):
+        o = bytearray.__new__(cls)
+        o._rope = rope
+        return o
+
+    def __init__(self, rope):
+        bytearray.__init__(self)
+
+    def __len__(self):
+        return len(self._rope)
+
+    def __bool__(self):
+        return bool(self._rope)
+
+    def __add__(self, o):
+        return self._rope + o
+
+    def __radd__(self, o):
+        return o + self._rope
+
+    def __getitem__(self, sl):
+        return self._rope[sl]
